@@ -43,8 +43,9 @@ type Thread struct {
 	low      bool
 	sel      *selState
 	started  bool
-	prio     int // scheduling priority (higher first); demoted threads get negative values
-	since    int // step at which the thread became runnable (FIFO run queue order); -1 = not runnable
+	prio     int  // scheduling priority (higher first); demoted threads get negative values
+	backoff  bool // parked in Backoff: keeps its low priority until Backoff returns
+	since    int  // step at which the thread became runnable (FIFO run queue order); -1 = not runnable
 }
 
 func (t *Thread) String() string { return fmt.Sprintf("T%d(%s)@%s", t.ID, t.Name, t.label) }
@@ -148,6 +149,12 @@ func Run(ch Chooser, opt Options, main func()) *Result {
 				en = s.enabled(en[:0])
 				t = en[0]
 			}
+		}
+		// a demotion lasts until the demoted thread is scheduled again (i.e. until every other
+		// thread has run as far as it can): from then on it competes normally, so that one
+		// deviation is one local reordering and not a permanent change of priorities
+		if t.prio < 0 && !t.backoff {
+			t.prio = 0
 		}
 		s.running = t
 		if opt.Trace && os.Getenv("VERIF_TRACE_STEPS") != "" {
@@ -473,6 +480,8 @@ func Backoff(label string) {
 	old := t.prio
 	s.minPrio--
 	t.prio = s.minPrio
+	t.backoff = true
 	s.park(label, nil)
+	t.backoff = false
 	t.prio = old
 }
